@@ -119,10 +119,21 @@ Definition C10_instances : list (list acfg * list env) :=
 Theorem C10_no_deadlock_bounded : forall cfg ev, In (cfg, ev) C10_instances ->
   forall s, reach (init cfg ev) s -> good cfg ev s = true.
 Proof.
-  intros cfg ev H. repeat (destruct H as [H|H]; [injection H as <- <-; eapply instance_sound;
-    first [apply inst1_ok | apply inst2_ok | apply inst3_ok | apply inst4_ok | apply inst5a_ok | apply inst5b_ok
-          | apply inst5c_ok | apply inst5d_ok | apply inst6_ok | apply inst7_ok | apply inst8_ok | apply inst9_ok
-          | apply inst10_ok]|]). destruct H.
+  intros cfg ev H. unfold C10_instances in H.
+  destruct H as [H|H]; [injection H as <- <-; exact (instance_sound fuel_1m cfg1 ev1 inst1_ok)|].
+  destruct H as [H|H]; [injection H as <- <-; exact (instance_sound fuel_1m cfg2 ev2 inst2_ok)|].
+  destruct H as [H|H]; [injection H as <- <-; exact (instance_sound fuel_1m cfg3 ev3 inst3_ok)|].
+  destruct H as [H|H]; [injection H as <- <-; exact (instance_sound fuel_1m cfg4 ev4 inst4_ok)|].
+  destruct H as [H|H]; [injection H as <- <-; exact (instance_sound fuel_1m cfg5 ev5a inst5a_ok)|].
+  destruct H as [H|H]; [injection H as <- <-; exact (instance_sound fuel_1m cfg5 ev5b inst5b_ok)|].
+  destruct H as [H|H]; [injection H as <- <-; exact (instance_sound fuel_1m cfg5 ev5c inst5c_ok)|].
+  destruct H as [H|H]; [injection H as <- <-; exact (instance_sound fuel_1m cfg5 ev5d inst5d_ok)|].
+  destruct H as [H|H]; [injection H as <- <-; exact (instance_sound fuel_1m cfg6 [EStop] inst6_ok)|].
+  destruct H as [H|H]; [injection H as <- <-; exact (instance_sound fuel_1m cfg7 [EStop] inst7_ok)|].
+  destruct H as [H|H]; [injection H as <- <-; exact (instance_sound fuel_1m cfg4 ev8 inst8_ok)|].
+  destruct H as [H|H]; [injection H as <- <-; exact (instance_sound fuel_1m cfg9 ev8 inst9_ok)|].
+  destruct H as [H|H]; [injection H as <- <-; exact (instance_sound fuel_2m cfg10 ev10 inst10_ok)|].
+  destruct H.
 Qed.
 Print Assumptions C10_no_deadlock_bounded.
 
